@@ -11,7 +11,7 @@ T = {
          "differential property-based testing against a reference evaluator"),
  "C04": ("AST round trip: trees rendered fully / minimally parenthesised (precedence table independent of the parser) must parse back to the tree they came from; exhaustive over all trees with <= 2 (thorough <= 3) operators, all && / || chains up to 64, all prefix runs up to 6; random trees of depth <= 7",
          "round-trip property-based testing + exhaustive small-scope enumeration"),
- "C05": ("model-based histories (<= 50 executions with kept results and snapshots, deep-copy oracle after every step) and a generated multi-thread stress over shared programs and a shared root context; a compile-time Send + Sync guard crate",
+ "C05": ("model-based histories (<= 50 executions with kept results and snapshots, deep-copy oracle and reference semantics after every step; 20-60 distinct tiny programs executed 60-200 times) and a generated multi-thread stress over shared programs and a shared root context; a compile-time Send + Sync guard crate",
          "stateful (model-based) property-based testing + seeded thread-stress exploration"),
  "C06": ("every &&/||/?: tree to depth 2 over boolean constants, error raisers and logging host calls (exhaustive), random to depth 4, bare and inside macro bodies; the exact ordered host-call log must equal the reference evaluator's",
          "exhaustive small-scope enumeration + property-based testing against a call-log oracle"),
@@ -23,7 +23,7 @@ T = {
          "exhaustive small-scope enumeration + algebraic-law property-based testing"),
  "C10": ("all seven macro forms over every list of length 0-6 from a 4-value alphabet with pure, error-raising and table-driven logging bodies (exhaustive), random long lists, maps and two-deep nestings; oracle = explicit folds and the exact visit sequence",
          "exhaustive small-scope enumeration + property-based testing against fold definitions"),
- "C11": ("all well-nested context histories up to length 6 (thorough 7) over 3 names and 3 scope levels checked after every step against a stack-of-maps model; 12 nested-macro templates x 27 name assignments x 8 context subsets; random typed programs reusing context names",
+ "C11": ("all well-nested context histories up to length 6 (thorough 7) over 3 names and 3 scope levels checked after every step against a stack-of-maps model; 25 nested-macro templates x 27 name assignments x 8 context subsets; one compiled program against every sequence of three contexts; random typed programs reusing context names",
          "stateful (model-based) property-based testing, exhaustive for short histories"),
  "C12": ("every single escape in every cooked spelling (exhaustive, \\u sweep stride-sampled in quick), invalid escapes, random strings / byte sequences rendered in every spelling that can spell them with per-character verbatim/escape choices; round trip to the intended value",
          "round-trip property-based testing + exhaustive escape sweeps"),
